@@ -145,6 +145,12 @@ def shrink(ops, fails):
 def check_histories(ctx, hists, tag):
     binary = ctx.harness("debug")
     recs = yvlib.run_harness(binary, [hist_line(h) for h in hists], quarantine=True, case_timeout_ms=3000)
+    reruns = 0
+    for i, r in enumerate(recs):
+        if r.crashed and len(hists[i]) < 2000 and reruns < 8:
+            reruns += 1
+            # a time-out under load is not a crash of the table: run the history once more, alone, with more time
+            recs[i] = yvlib.run_harness(binary, [hist_line(hists[i])], quarantine=True, shards=1, case_timeout_ms=20000)[0]
     c = consts()
     cap, ln, ld = c.get("INIT_CAPACITY", 4), c.get("MAX_LOAD_NUM", 3), c.get("MAX_LOAD_DEN", 4)
     terms = []
@@ -208,6 +214,40 @@ for _p in PADS:
     ROUTES.append(("split@%d" % (len(_p) + 1), (lambda t, _p=_p: _split_pad(t, _p))))
 ROUTES.append(("replace_long", lambda t: '("%s@@".replace("@@", "%s"))' % (t[:len(t) // 3], t[len(t) // 3:])))
 ROUTES.append(("concat3", lambda t: '("%s" + "%s" + "%s")' % (t[:1], t[1:len(t) // 2], t[len(t) // 2:])))
+
+
+# pairs of different texts whose full 64-bit FNV-1a hashes (as ObjString computes them) coincide; found once with a
+# distinguished-point search.  If the hash function of /repo changes they stop colliding and are simply two texts.
+COLLIDING = [("kmowifkepwyjjh", "k2hhduid1cdvyc"), ("k1tcqjc2ichppm", "klpjgyvqcj0cmo"), ("kx34asobqzewlj", "kwdswiiyi5supi")]
+LONG = ["ab" * 2500, "x" * 4096, "x" * 4097, "y" * 8192, ("0123456789" * 410) + "é"]
+
+
+def collision_program(pair):
+    """different texts with the same 64-bit hash used as values, constants, globals, methods, fields and keys"""
+    a, b = pair
+    src = "\n".join([
+        "var %s = 1; var %s = 2; print(%s); print(%s);" % (a, b, a, b),
+        'fn f() { return "%s" + "|" + "%s"; } print(f());' % (a, b),
+        '#[constructor(new)] class K { fn %s(self) { return "ma"; } fn %s(self) { return "mb"; } }' % (a, b),
+        "var k = K.new(); print(k.%s()); print(k.%s());" % (a, b),
+        "#[constructor(new)] class P {} var p = P.new(); p.%s = 10; p.%s = 20; print(p.%s); print(p.%s);" % (a, b, a, b),
+        'var x = "%s" + "%s"; var y = "%s" + "%s";' % (a[:5], a[5:], b[:7], b[7:]),
+        "print(x == y); print(x != y); print([x] == [y]); print((x, 1) == (y, 1));",
+        'var m = {x: 1}; print(m.has_key(y)); m.insert(y, 2); print(m.len()); print(m.get(x)); print(m.get("%s"));' % b,
+        "fn g() { %s = 5; return %s; } print(g()); print(%s);" % (a, b, a),
+    ])
+    expect = ["1", "2", a + "|" + b, "ma", "mb", "10", "20", "false", "true", "false", "false", "false", "2", "1", "2", "2", "5"]
+    return src, expect, ("collision", "collision", False, 0)
+
+
+def long_program(rng, t):
+    """the same long text (around and beyond 4096 bytes) produced by two routes"""
+    routes = [r for r in ROUTES if r[0] in ("literal", "concat", "interp", "from", "iter", "concat3", "replace_long") or r[0].startswith(("slice@", "split@"))]
+    r1, r2 = rng.choice(routes), rng.choice(routes)
+    src = "\n".join(["var a = %s;" % r1[1](t), "var b = %s;" % r2[1](t),
+                     "print(a == b); print(a.len()); var m = {a: 1}; print(m.has_key(b)); m.insert(b, 2); print(m.len());",
+                     'var c = b + "!"; print(a == c); print(m.has_key(c));'])
+    return src, ["true", str(len(t.encode())), "true", "1", "false", "false"], (r1[0], r2[0], True, len(t))
 
 
 def gen_program(rng):
@@ -281,6 +321,22 @@ def run(ctx):
             return a != b
         small = shrink(ops0[:400], fails) if fails(ops0[:400]) else ops0
         a, b = observe(small)
+        if a == b:
+            # the disagreement does not reproduce when the history is run alone (a harness time-out under machine
+            # load): re-observe every reported history once and keep only those that still disagree
+            keep = []
+            for w in hv:
+                opsw = [(bool(i), int(h), yvlib.unhx(s)) for i, h, s in w["ops"]]
+                aw, bw = observe(opsw)
+                if aw != bw:
+                    w.update({"actual": aw, "expected": bw})
+                    keep.append(w)
+            ctx.notes.append("%d history disagreement(s) did not reproduce when re-run alone (transient); dropped" % (len(hv) - len(keep)))
+            for w in hv:
+                if w not in keep:
+                    ctx.violations.remove(w)
+            hv[:] = keep
+            break
         v.update({"ops": [[int(i), h, hx(s)] for i, h, s in small], "input": hist_line(small), "actual": a, "expected": b})
         v.pop("model", None)
         os.makedirs(os.path.join(yvlib.VERIF, "build", "new_corpus", "C11"), exist_ok=True)
@@ -307,6 +363,8 @@ def run(ctx):
         ctx.corr_broken.append("ObjString.hash != FNV-1a(bytes ++ 0xff) for %r" % hash_bad[0])
     # programs: strings by different routes
     progs = [gen_program(rng) for _ in range(150 if quick else 2500)]
+    progs += [collision_program(pr) for pr in COLLIDING] + [collision_program((b, a)) for a, b in COLLIDING]
+    progs += [long_program(rng, t) for t in LONG for _ in range(2 if quick else 12)]
     precs = yvlib.run_harness(binary, ["run - " + hx(p[0]) for p in progs])
     routes = set()
     for (src, expect, meta), r in zip(progs, precs):
